@@ -133,7 +133,7 @@ def analyse(fn, pidx, kind, family, prop, res):
             p = blocks[ps[0]]
             t = p.get("term")
             if t and t.get("cond") and len(p["succs"]) == 2:
-                ze = zero_edge(t["cond"], from_div)
+                ze = zero_edge(sa.effective_cond(t), from_div)
                 if ze is not None and p["succs"][ze] == cur:
                     guards.add(p["id"])
                 break
